@@ -131,7 +131,19 @@ def main(tier):
     if r4.rc != 0 or "Error:" in r4.out:
         raise V.ToolError("MC_Forms failed:\n" + V.tail(r4.out, 40))
     rep.notes.append("MC_Forms: %d programs (expression with one symbol twice, .var assigned twice, defined(), .loop): invariants hold" % r4.distinct)
-    asts, masts, iasts = D.tlc_cases(r), D.tlc_cases(r2), D.tlc_cases(r3) + D.tlc_cases(r4)
+    mv = os.path.join(SPEC, "MC_VarShadow.tla")
+    r5 = V.tlc(mv, cfg=os.path.join(SPEC, "MC_VarShadow.cfg"), workers=4, timeout=1200, tag="C15-mv")
+    rep.add_tlc(r5)
+    if r5.invariant_violated:
+        rep.violations.append({"why": "design level: MC_VarShadow invariant violated", "replay": {"tlc_output": V.tail(r5.out, 60)}, "id": "MC_VarShadow"})
+        return rep.finish()
+    if r5.rc != 0 or "Error:" in r5.out:
+        raise V.ToolError("MC_VarShadow failed:\n" + V.tail(r5.out, 40))
+    rep.notes.append("MC_VarShadow: %d programs (a block that uses an outer name, defines its own - constant, label or sequential variable - and uses it again): "
+                     "Sequential, RefsInverse, FreshRenameIsCaptureFree hold" % r5.distinct)
+    vasts = D.tlc_cases(r5)
+    V.rng("C15-vs").shuffle(vasts)
+    asts, masts, iasts = D.tlc_cases(r), D.tlc_cases(r2), D.tlc_cases(r3) + D.tlc_cases(r4) + (vasts[:60] if tier == "quick" else vasts)
     rnd = V.rng("C15")
     wd = V.fresh_dir("C15")
     rnd.shuffle(asts)
